@@ -466,6 +466,8 @@ def explore(mod, tier, master, runs_override=None, workers=None, no_selftest=Fal
         'cpu_seconds_in_runs': round(agg['cpu_s'], 2),
         'workers': workers,
         'counters': {k: (round(v, 3) if isinstance(v, float) else v) for k, v in sorted(agg['stats'].items())},
+        'fault_kinds_fired': dict({lab: agg['stats'].get(key, 0) for lab, key in getattr(mod, 'FAULT_COUNTERS', {}).items()},
+                                  **{'scheduling jitter: per-wake latency in [1 us, Lmax], clock read cost, bus latency policy (every run)': agg['n']}),
         'distinct_abstract_states': len(agg['states']),
         'distinct_executions': len(set(agg['digests'].values())),
         'measure_of_distinctness': 'distinct_executions = number of different SHA-256 digests of the complete event log (thread switches, every frame sent and delivered, every callback); distinct_abstract_states = per-stack multiset of (table, session state, remaining-packets bucket) sampled during the run, where the check samples it',
